@@ -57,7 +57,9 @@ def make_data(kind: str, shape, seed: int, rank: int):
     rng = np.random.RandomState(seed)
     # low rank + noise, unfoldings of rank >= requested rank
     U = [rng.rand(s, max(rank, 2) + 1) for s in shape]
-    base = ttb.ktensor(U, np.arange(1, max(rank, 2) + 2, dtype=float)).full().data + 0.1 * rng.rand(*shape)
+    # component sizes in the order (middle, small, large, ...): sorting them is not an involution
+    wts = np.array([2.0, 1.0, 3.0, 5.0, 4.0, 6.0])[:U[0].shape[1]] if U[0].shape[1] >= 3 else np.arange(1, U[0].shape[1] + 1, dtype=float)
+    base = ttb.ktensor(U, wts).full().data + 0.1 * rng.rand(*shape)
     X = ttb.tensor(base)
     if kind == "dense":
         return X, X
@@ -67,8 +69,9 @@ def make_data(kind: str, shape, seed: int, rank: int):
         S = ttb.tensor(D).to_sptensor()
         return S, ttb.tensor(D)
     if kind == "ttensor":
-        core_t = ttb.tensor(rng.rand(*[min(s, 2) for s in shape]))
-        T = ttb.ttensor(core_t, [rng.rand(s, min(s, 2)) for s in shape])
+        cr = [min(s, max(rank, 2)) for s in shape]
+        core_t = ttb.tensor(rng.rand(*cr))
+        T = ttb.ttensor(core_t, [rng.rand(s, k) for s, k in zip(shape, cr)])
         return T, T.full()
     if kind == "sum":
         S = ttb.tensor(np.where(rng.rand(*shape) < 0.5, base, 0)).to_sptensor()
@@ -167,8 +170,12 @@ def run_config(c: dict) -> dict:
            "rank_and_shape_ok": bool(M.ncomponents == rank and tuple(M.shape) == shape),
            "unit_columns": bool(unit),
            "weights_nonneg_sorted": bool(np.all(w >= -1e-12) and np.all(np.diff(w) <= 1e-9 * max(1.0, float(np.max(np.abs(w)))))),
-           "fit_dev": e9((out["fit"] - fit_re) / max(1.0, abs(fit_re))),
-           "res_dev": e9((out["normresidual"] - res_rep_re) / max(1.0, abs(res_rep_re))),
+           # compared through the squared residual (the well-conditioned quantity: a residual near 0 carries an
+           # absolute error of sqrt(eps) * ||X|| whichever way it is computed)
+           "fit_dev": (e9((out["fit"] - fit_re) / max(1.0, abs(fit_re))) if c["kind"] == "sum" else
+                       e9((((1 - out["fit"]) * Xn) ** 2 - res_re ** 2) / max(1.0, Xn ** 2))),
+           "res_dev": (e9((out["normresidual"] - res_rep_re) / max(1.0, abs(res_rep_re))) if c["kind"] == "sum" else
+                       e9((out["normresidual"] ** 2 - res_re ** 2) / max(1.0, Xn ** 2))),
            "stationarity_dev": e9(stat),
            "data_untouched": bool(x_ok), "init_untouched": bool(i_ok),
            "returned_init_is_the_one_used": bool(len(rec.calls) > 0 and rec.calls[0][1] == init_ids)}
@@ -205,11 +212,16 @@ def configs(cfgs: List[dict], tier: str) -> List[dict]:
             init = inits[i % 4]
             if kind == "sum" and init == "nvecs":
                 init = "given"
-            shape = [3, 4, 2, 3][:c["N"]] if i % 2 else [4, 3, 3, 2][:c["N"]]
-            out.append({"shape": shape, "kind": kind, "rank": 1 + (i % 2) + (1 if (tier != "quick" and i % 5 == 0) else 0),
+            shape = ([3, 4, 3, 3][:c["N"]] if i % 4 == 1 else [3, 4, 2, 3][:c["N"]]) if i % 2 else [4, 3, 3, 2][:c["N"]]
+            # options are drawn independently of the loop counters (a fixed pseudo-random stream per configuration):
+            # correlated choices had hidden "sum-tensor data with printing" and "rank 3" from the quick tier
+            import random
+            rr = random.Random(1000 * core.seed() + i)
+            out.append({"shape": shape, "kind": kind, # in scope: unfoldings of rank >= requested rank, i.e. rank <= smallest mode size
+                        "rank": rr.choice([r for r in (1, 2, 2, 3, 3) if r <= min(shape)]),
                         "seed": core.seed() + i % 7, "dimorder": c["dimorder"], "optdims": c["optdims"],
-                        "maxiters": c["maxiters"], "stoptol": [0.0, 1e-4][i % 2], "printitn": [0, 1, 2][i % 3],
-                        "fixsigns": bool((i // 2) % 2), "init": init})
+                        "maxiters": c["maxiters"], "stoptol": rr.choice([0.0, 1e-4]), "printitn": rr.choice([0, 1, 2]),
+                        "fixsigns": rr.choice([False, True]), "init": init})
             i += 1
     return out
 
